@@ -276,7 +276,17 @@ func c12Body(d c12Desc, tier string) func() {
 				for ai, arg := range []string{"", "a.b", "é\"\x00<&>", strings.Repeat("x", 5000), "a.b"} {
 					nlog := len(c.Log)
 					var out interface{}
-					err := conn.Call(live, "t.e.Typed", map[string]interface{}{"which": which, "arg": arg, "cont": ai == 4}, &out)
+					if ai%2 == 1 {
+						// an out value whose members are named like the standard errors' parameters, with other types
+						out = &struct {
+							Parameter int   `json:"parameter"`
+							Method    []int `json:"method"`
+							Interface bool  `json:"interface"`
+						}{}
+					} else {
+						out = &out
+					}
+					err := conn.Call(live, "t.e.Typed", map[string]interface{}{"which": which, "arg": arg, "cont": ai == 4}, out)
 					st.calls++
 					got := ""
 					switch e := err.(type) {
@@ -315,9 +325,21 @@ func c12Body(d c12Desc, tier string) func() {
 				nlog := len(c.Log)
 				before := refusals
 				var out map[string]interface{}
-				err := conn.Call(live, "t.e.Err", in, &out)
-				st.calls++
 				sendable, unspec := refErrName(name)
+				var err error
+				if sendable && !unspec && pi%2 == 1 {
+					// the caller's out value is for the method's reply; an error reply's parameters (here: members of
+					// the same names with other types) have no business in it
+					var typed struct {
+						A string   `json:"a"`
+						N string   `json:"n"`
+						F []string `json:"f"`
+					}
+					err = conn.Call(live, "t.e.Err", in, &typed)
+				} else {
+					err = conn.Call(live, "t.e.Err", in, &out)
+				}
+				st.calls++
 				if len(c.Log) != nlog+1 || c.Pending() != 0 {
 					fail("error name %q: %d frames on the wire for one call", name, len(c.Log)-nlog)
 					break
